@@ -92,10 +92,11 @@ func (x *Exec) execFunction(s *State, f *ssa.Function, args []Val, bindings []Va
 		x.unsupported("function %s has no body", f.String())
 		return
 	}
-	x.execBlock(s, f.Blocks[0], nil, func(s2 *State, res []Val) {
+	fr.k = func(s2 *State, res []Val) {
 		s2.frames = s2.frames[:len(s2.frames)-1]
 		k(s2, res)
-	})
+	}
+	x.execBlock(s, f.Blocks[0], nil, fr.k)
 }
 
 func (x *Exec) execBlock(s *State, b *ssa.BasicBlock, pred *ssa.BasicBlock, k cont) {
@@ -369,11 +370,12 @@ func (x *Exec) havocLoop(s *State, f *ssa.Function, body map[*ssa.BasicBlock]boo
 
 // havocPrefix havocs key and its composite parts (#a #o #l #c).
 func (x *Exec) havocPrefix(s *State, key string) {
-	if strings.HasSuffix(key, "*") {
-		pre := strings.TrimSuffix(key, "*")
+	if strings.Contains(key, "*") {
+		// a pattern: every materialised key it matches, and (recorded) every key materialised later
+		s.wildHavoc = append(s.wildHavoc, key)
 		var ks []string
 		for k := range s.heap {
-			if strings.HasPrefix(k, pre) {
+			if keyMatches([]string{key}, k) {
 				ks = append(ks, k)
 			}
 		}
@@ -386,9 +388,15 @@ func (x *Exec) havocPrefix(s *State, key string) {
 		}
 		return
 	}
+	// make sure the key exists so that the havoc is not lost
 	x.havocKey(s, key)
 	for _, suf := range []string{"#a", "#o", "#l", "#c"} {
 		x.havocKey(s, key+suf)
+	}
+	if _, ok := s.heap[key]; !ok {
+		if _, ok2 := s.heap[key+"#a"]; !ok2 {
+			s.wildHavoc = append(s.wildHavoc, key)
+		}
 	}
 }
 
@@ -566,6 +574,20 @@ func (x *Exec) debugRef(s *State, d *ssa.DebugRef) {
 // doPanic handles an explicit panic instruction.
 func (x *Exec) doPanic(s *State, in *ssa.Panic, v Val, k cont) {
 	fr := s.top()
+	if !x.sweep && v.K == vScalar && v.T.Sort == SIface {
+		// compile phase: build() tells "no panic" from "panic" by recover() != nil
+		x.oblige(s, "panic-nonnil", x.label(in), Not(Eq(v.T, T{"inil", SIface})), in.Pos(), []string{"C06"})
+	}
+	// an enclosing frame with a recovering defer (inlined callee of build)?
+	for i := len(s.frames) - 1; i >= 0; i-- {
+		if len(s.frames[i].defers) > 0 && i != len(s.frames)-1 {
+			// unwind to that frame
+			s.frames = s.frames[:i+1]
+			s.frames[i].panicking = &v
+			x.runDefersPanicking(s, s.frames[i].k)
+			return
+		}
+	}
 	if len(fr.defers) > 0 {
 		// function with a recover handler (build): run the deferred closure with the panic value
 		fr.panicking = &v
@@ -589,6 +611,10 @@ func (x *Exec) doPanic(s *State, in *ssa.Panic, v Val, k cont) {
 	}
 	if allowed {
 		return // exceptional exit permitted by contract; path ends
+	}
+	if x.fnc != nil && x.fnc.NoPanic {
+		x.oblige(s, "panic-escapes", x.label(in), TFalse, in.Pos(), x.fnc.Props)
+		return
 	}
 	if x.sweep {
 		x.oblige(s, "panic-unreachable", x.label(in), TFalse, in.Pos(), nil)
@@ -1298,7 +1324,7 @@ func (x *Exec) strSub(s *State, str, lo, hi T) T {
 	r := x.define(s, "sub", mk(SStr, "str.sub_", str, lo, hi))
 	l := x.strLenRaw(str)
 	s.assume(Eq(x.strLenRaw(r), x.sub(hi, lo)))
-	s.assume(Implies(Eq(lo, hi), Eq(r, T{"str.empty", SStr})))
+	s.assume(mk(SBool, "=", Eq(lo, hi), Eq(r, T{"str.empty", SStr})))
 	s.assume(Implies(And(Eq(lo, x.ilit(0)), Eq(hi, l)), Eq(r, str)))
 	return r
 }
